@@ -376,3 +376,128 @@ func TestC14CrossNode(t *testing.T) {
 			rep.Floor("multi_destination_or_failed", 50, rep.Nontrivial)
 		})
 }
+
+// TestC14FailedPeer: what a failed node leaves behind must not keep publishes from being acknowledged or delivered. Node 2
+// hosts matching subscribers and crashes; between the crash and the moment the survivors' failure detectors report it,
+// none / some / all of its clients reconnect to node 1 under their client identifiers (which displaces their old session
+// records) and subscribe again or not. Afterwards no subscription of the failed node is listed on a survivor, and a QoS 1
+// publish on node 1 is acknowledged and reaches every live matching subscriber exactly once.
+func TestC14FailedPeer(t *testing.T) {
+	type fp struct {
+		Nodes       int  `json:"nodes"`
+		Clients     int  `json:"clients_of_failed_node"`
+		Reconnect   int  `json:"clients_reconnecting_before_the_failure_is_reported"`
+		Resubscribe bool `json:"they_subscribe_again"`
+		Lost        bool `json:"session_records_of_the_failed_node_never_reached_node_1"`
+	}
+	var paths []fp
+	for _, n := range []int{2, 3} {
+		for c := 1; c <= 2; c++ {
+			for r := 0; r <= c; r++ {
+				for _, rs := range []bool{false, true} {
+					if r == 0 && rs {
+						continue
+					}
+					paths = append(paths, fp{n, c, r, rs, false})
+				}
+			}
+		}
+		paths = append(paths, fp{n, 1, 0, false, true})
+	}
+	RunPaths(t, "C14", "C14/failed-peer", "TestC14FailedPeer", len(paths), vk.Pick(4*time.Minute, 10*time.Minute),
+		func(t *testing.T, i int, rep *vk.Report) {
+			p := paths[i]
+			RunBubble(t, fmt.Sprintf("p%d", i), func(t *testing.T) {
+				w := NewWorld(t, p.Nodes)
+				defer w.Close()
+				viol := func(sig, format string, a ...any) {
+					rep.Violate(vk.Violation{Sig: sig, Msg: fmt.Sprintf("%+v: ", p) + fmt.Sprintf(format, a...), Replay: p})
+				}
+				pub := w.NewClient("pub", 1, AckAll)
+				pub.Connect(ConnectOpts{ClientID: "pub", KeepAlive: 600})
+				var live []*Client
+				if p.Nodes == 3 {
+					c := w.NewClient("sub-3", 3, AckAll)
+					c.Connect(ConnectOpts{ClientID: "sub-3", KeepAlive: 600})
+					c.Subscribe(1, 1, "a/+")
+					live = append(live, c)
+				}
+				w.Step()
+				if p.Lost {
+					// the session records of node 2 are lost on their way to node 1, its subscriptions arrive
+					w.GossipHold = func(int) bool { return true }
+				}
+				for k := 0; k < p.Clients; k++ {
+					c := w.NewClient(fmt.Sprintf("dev-%d", k), 2, AckAll)
+					c.Connect(ConnectOpts{ClientID: c.Name, KeepAlive: 600})
+					if p.Lost {
+						w.Step()
+						w.DrainGossip()
+						w.Pending = nil
+						w.GossipHold = nil
+					}
+					c.Subscribe(1, 1, "a/b")
+					w.Step()
+				}
+				pub.Publish("a/b", "before", 1, false, 1)
+				w.Idle(2 * time.Second)
+				if !pub.Has("PUBACK(1)") {
+					rep.HarnessError("the publish before the failure was not acknowledged")
+					return
+				}
+				w.Crash(2)
+				for k := 0; k < p.Reconnect; k++ {
+					c := w.NewClient(fmt.Sprintf("dev-%d-again", k), 1, AckAll)
+					if c.Connect(ConnectOpts{ClientID: fmt.Sprintf("dev-%d", k), KeepAlive: 600}) != 0 {
+						rep.HarnessError("reconnect refused")
+						return
+					}
+					if p.Resubscribe {
+						c.Subscribe(1, 1, "a/b")
+						live = append(live, c)
+					}
+					w.Step()
+				}
+				w.NotifyLeave(2)
+				w.Idle(3 * time.Second)
+				for _, n := range w.Nodes {
+					if n.Dead {
+						continue
+					}
+					for _, s := range n.DState.Subscriptions().All() {
+						if s.Peer == 2 {
+							viol("c14-subscription-of-failed-node-still-listed", "after node 2 failed and its failure was reported, node %d still lists subscription %s %s of peer 2 (publishes matching it can never be stored there)", n.ID, s.SessionID, s.Pattern)
+							return
+						}
+					}
+				}
+				pub.Publish("a/b", "after", 1, false, 2)
+				w.Idle(5 * time.Second)
+				if !pub.Has("PUBACK(2)") {
+					viol("c14-ack-withheld-for-failed-node", "a QoS 1 publish made 3 s after node 2's failure was reported is still unacknowledged 5 s later; publisher inbox %s", pub.InboxDigest())
+					return
+				}
+				for _, c := range live {
+					got := 0
+					for _, pk := range c.Publishes() {
+						if string(pk.Payload) == "after" {
+							got++
+						}
+					}
+					if got != 1 {
+						viol("c14-live-subscriber-count-after-failure", "live subscriber %s received the publish made after the failure %d time(s), expected 1", c.Name, got)
+						return
+					}
+				}
+				Observe(w, rep)
+				MarkNontrivial(fmt.Sprint(p))
+				rep.Nontrivial++
+				rep.Sample(p)
+			})
+		},
+		func(i int) any { return paths[i] },
+		func(rep *vk.Report) {
+			rep.Rule = "node 2 (1-2 matching subscribers) crashes; 0..all of its clients reconnect to node 1 under their client identifiers before the failure is reported (subscribing again or not), or node 1 never learnt of their session records; then the failure is reported: no survivor lists a subscription of node 2, a QoS 1 publish on node 1 is acknowledged and reaches every live matching subscriber exactly once"
+			rep.Floor("paths", int64(len(paths)), rep.Nontrivial)
+		})
+}
